@@ -165,6 +165,30 @@ def top_services(st):
     return [s for s in st.of_class('NetworkService') if not st.owner_of_service(s)]
 
 
+def interest(st, ids):
+    """how much structure hangs on these elements: connected ports, sub-interfaces, links with > 2 ends, peerings"""
+    score = 0
+    for x in ids:
+        if x in st.n and st.cls(x) == 'ConnectionPoint':
+            score += len(st.child_cps(x)) * 2
+            for l in st.links_of_cp(x):
+                score += 1 + (2 if len(st.cps_of_link(l)) > 2 else 0)
+            if st.typ(x) == 'ServicePort' and any(st.typ(p) == 'ServicePort' for p in st.peers(x)):
+                score += 3
+    return score
+
+
+def pick_interesting(rng, cands, score, p=0.6):
+    """mostly the candidate with the most structure attached (ties broken by the PRNG), sometimes any"""
+    if not cands:
+        return None
+    if rng.random() < p:
+        best = max(score(c) for c in cands)
+        if best > 0:
+            return rng.choice([c for c in cands if score(c) == best])
+    return rng.choice(cands)
+
+
 def pick_name(rng, pool, existing, p_fresh=0.8):
     fresh = [x for x in pool if x not in existing]
     if fresh and rng.random() < p_fresh:
@@ -447,7 +471,8 @@ def g_add_child_interface(w, rng, st):
     ded = [cp for n in st.of_class('NetworkNode') for cp in st.node_interfaces(n) if st.typ(cp) == 'DedicatedPort']
     if not ded:
         return None
-    cp = rng.choice(ded)
+    # ports that already have a sub-interface, or sit on a link, first
+    cp = pick_interesting(rng, ded, lambda c: interest(st, [c]), p=0.5)
     r = iface_ref(st, cp)
     if r is None:
         return None
@@ -472,6 +497,18 @@ def g_peer(w, rng, st):
     if len(svcs) < 2:
         return None
     a, b = rng.sample(svcs, 2)
+    # a service that already peers becomes a hub with several peerings
+    hubs = [x for x in svcs if any(st.typ(p) == 'ServicePort' for c in st.cps_of_service(x) for p in st.peers(c))]
+    if hubs and rng.random() < 0.6:
+        a = rng.choice(hubs)
+        others = [x for x in svcs if x != a and not any(
+            st.service_of_cp(p) and st.service_of_cp(p)[0] == a for c in st.cps_of_service(x) for p in st.peers(c))]
+        if others:
+            b = rng.choice(others)
+            if rng.random() < 0.5:
+                a, b = b, a
+    if a == b:
+        return None
     return {'a': st.name(a), 'b': st.name(b)}
 
 
@@ -494,7 +531,7 @@ def g_remove_node(w, rng, st):
     nodes = [n for n in st.of_class('NetworkNode') if st.typ(n) != 'Facility']
     if not nodes:
         return None
-    return {'name': st.name(rng.choice(nodes))}
+    return {'name': st.name(pick_interesting(rng, nodes, lambda n: interest(st, st.own_node(n))))}
 
 
 @op('remove_node', 'remove')
@@ -542,7 +579,7 @@ def g_remove_component(w, rng, st):
     comps = [(n, c) for n in st.of_class('NetworkNode') for c in st.components_of(n) if st.typ(c) != 'Storage']
     if not comps:
         return None
-    n, c = rng.choice(comps)
+    n, c = pick_interesting(rng, comps, lambda nc: interest(st, st.own_component(nc[1])))
     return {'node': st.name(n), 'name': st.name(c)}
 
 
@@ -580,7 +617,7 @@ def g_remove_network_service(w, rng, st):
     svcs = top_services(st)
     if not svcs:
         return None
-    return {'name': st.name(rng.choice(svcs))}
+    return {'name': st.name(pick_interesting(rng, svcs, lambda x: interest(st, st.own_service(x))))}
 
 
 @op('remove_network_service', 'remove')
@@ -820,7 +857,7 @@ def g_svc_remove_interface(w, rng, st):
     c = [(n, x, cp) for n, x in node_services(st) for cp in st.cps_of_service(x)]
     if not c:
         return None
-    n, x, cp = rng.choice(c)
+    n, x, cp = pick_interesting(rng, c, lambda t: interest(st, st.own_cp(t[2])))
     return {'node': st.name(n), 'svc': st.name(x), 'name': st.name(cp)}
 
 
@@ -840,7 +877,7 @@ def g_node_remove_network_service(w, rng, st):
     ns = node_services(st)
     if not ns:
         return None
-    n, x = rng.choice(ns)
+    n, x = pick_interesting(rng, ns, lambda nx_: interest(st, st.own_service(nx_[1])))
     return {'node': st.name(n), 'name': st.name(x)}
 
 
